@@ -26,6 +26,21 @@ def fill_buffers(name, a, rng, hot=0.5):
             buf = bytearray(x if x not in S.WS else 0x41 for x in buf)
         a[b] = bytes(buf)
 
+R = range
+DOMAIN = {
+    ('bidib_send_sys_identify', 'st'): [0, 1], ('bidib_send_fw_update_op_setdest', 'range'): [0, 1],
+    ('bidib_send_boost_on', 'uni'): [0, 1], ('bidib_send_boost_off', 'uni'): [0, 1],
+    ('*', 'anum'): list(R(128)), ('bidib_send_accessory_set', 'aspect'): list(R(128)),
+    ('bidib_send_accessory_para_set_opmode', 'op'): list(R(128)),
+    ('bidib_send_accessory_para_set_startup', 'sb'): list(R(128)) + [254, 255],
+    ('bidib_send_accessory_para_get', 'para'): [251, 252, 253, 254, 255],
+    ('bidib_send_lc_macro_handle', 'op'): [0, 1, 252, 253, 254, 255],
+    ('bidib_send_cs_set_state', 'state'): [0, 1, 2, 3, 4, 8, 9, 0x0D, 0xFF],
+    ('bidib_send_cs_drive', 'fmt'): [0, 2, 3], ('bidib_send_cs_drive', 'active'): list(R(64)), ('bidib_send_cs_drive', 'f1'): list(R(32)),
+    ('bidib_send_cs_pom', 'op'): [0, 1, 2, 3, 0x43, 0x47, 0x80, 0x81, 0x82, 0x83, 0x87, 0x8B, 0x8F],
+    ('bidib_send_cs_bin_state', 'data'): [0, 1], ('bidib_send_cs_prog', 'op'): [0, 1, 2, 3, 4],
+}
+
 HINT = {
     'bidib_send_sys_clock': lambda rng: {'t0': rng.randrange(60), 't1': 0x80 + rng.randrange(24), 't2': 0x40 + rng.randrange(7), 't3': 0xC0 + rng.randrange(32)},
 }
@@ -50,6 +65,10 @@ def random_call(rng, addr, names=None, hot=0.5, long_bias=0.2):
                     a[an] = mx
                 else:
                     a[an] = rng.randrange(1, mx + 1)
+            elif (name, an) in DOMAIN:
+                a[an] = rng.choice(DOMAIN[(name, an)])
+            elif ('*', an) in DOMAIN:
+                a[an] = rng.choice(DOMAIN[('*', an)])
             else:
                 a[an] = rbyte(rng, hot)
         if name == 'bidib_send_bm_mirror_multiple':
